@@ -30,3 +30,7 @@ int c1rec2 () { return crec (); }
 int bufsz (int n) { return sizeof (allocate_buffer (n)); }
 // c01's observation: sort_array by function name hashes the name once per comparison and executes no instruction
 int sortname (int n, int len) { mixed *a = allocate (n); string f = repeat_string ("f", len); int t = time_expression { sort_array (a, f, this_object ()); }; return t; }
+// round 4 probes: values nested deeper than any C recursion limit
+int deepfp (int n) { function f = (: spin :); int i; for (i = 0; i < n; i++) f = (: call_other, this_object (), "kind", f :); return strlen (sprintf ("%O", f)); }
+int deeparr (int n) { mixed a = ({ }); int i; for (i = 0; i < n; i++) a = ({ a }); a = 0; return n; }
+int deeparr_eq (int n) { mixed a = ({ }), b = ({ }); int i; for (i = 0; i < n; i++) { a = ({ a }); b = ({ b }); } return a == b; }
